@@ -570,6 +570,17 @@ class EngineRun:
     async def apply_async(self, s):
         if s['op'] == 'close':
             await self.ep.close()
+        elif s['op'] == 'gate':
+            # a slow link: from now on every write blocks until the harness releases it (frames pile up in the send queue)
+            self.t.gated = bool(s['on'])
+            if not self.t.gated:
+                while self.t.release():
+                    await self.loop.settle()
+        elif s['op'] == 'release':
+            for _ in range(s['n']):
+                if not self.t.release():
+                    break
+                await self.loop.settle()
         else:
             self.apply(s)
 
